@@ -406,6 +406,14 @@ def step (st : DState) (toks : List String) : DState × String :=
       if (ver == "paired") != paired then
         ({ st with sess := none }, s!"FAIL handshake ran as {ver} but the model has paired={paired}")
       else sessEv st .handshakeV2
+  | ["sess.handshake-half"] => sessEv st .handshakeClientOnly
+  | ["sess.split", observed] =>
+    match st.sess with
+    | none => (st, "ok")
+    | some s =>
+      -- do the two sides derive different rendezvous in the model as well?
+      let split := decide (s.srv.sid s.entropy ≠ s.cli.sid s.entropy)
+      if (observed == "1") != split then (st, s!"FAIL rendezvous split observed={observed}, model={split}") else (st, "ok")
   | ["sess.early-accept-blocked"] => sessBlocked st .acceptRet
   | ["sess.early-dial-blocked"] => sessBlocked st .dialRet
   | ["sess.intruder", adm] =>
